@@ -49,7 +49,8 @@ Mutable(stack) == \A i \in DOMAIN stack : stack[i].k = "m"
 (***************************************************************************)
 R(res, root) == [res |-> res, root |-> root]
 
-ReadOps  == {"idx_coord", "idx_row", "col_idx", "get_unchecked", "get_unchecked_row", "row", "col", "size"}
+\* "debug": the Debug rendering lists the rows; "as_view": From<TooDeeViewMut> for TooDeeView - both show the receiver's grid
+ReadOps  == {"idx_coord", "idx_row", "col_idx", "get_unchecked", "get_unchecked_row", "row", "col", "size", "debug", "as_view"}
 WriteOps == {"idxm_coord", "idxm_row", "colm_idx", "colm_idxm", "get_unchecked_mut", "get_unchecked_row_mut"}
 
 ApplyRead(root, stack, op, a) ==
@@ -58,7 +59,7 @@ ApplyRead(root, stack, op, a) ==
             IF a.c < NC(w) /\ a.r < NR(w) THEN R(Some(Cell(w, a.c, a.r)), root) ELSE R(Panic, root)
       [] op \in {"row", "get_unchecked_row"} -> IF a.r < NR(w) THEN R(Ids(RowOf(w, a.r)), root) ELSE R(Panic, root)
       [] op = "col"  -> IF a.c < NC(w) THEN R(Ids(ColOf(w, a.c)), root) ELSE R(Panic, root)
-      [] op = "size" -> R(GridRes(w), root)
+      [] op \in {"size", "debug", "as_view"} -> R(GridRes(w), root)
 
 \* the mutable access forms: the harness writes a.v through the reference obtained
 ApplyWrite(root, stack, op, a) ==
